@@ -88,6 +88,9 @@ def mixed(own, tier, pid, need_watch=False, serial_only=False):
         sc = dict(sc)
         if need_watch:
             sc['watch'] = True
+        # borrowed shapes only: firing timeouts / cancellation clean-up belong to the profiles whose oracles handle them
+        sc.pop('timeouts', None)
+        sc['handlers'] = [{k: v for k, v in h.items() if k != 'cleanup'} for h in sc['handlers']]
         return sc
 
     if not others:
